@@ -172,6 +172,26 @@ class Shapes:
             return V("D", own, S)
         return S
 
+    def nested(self, attr, own):
+        """`<borrowed aggregator of unknown class>.attr`: if some primitive keeps children under that name, the value is
+        (a container of) aggregators that belong to the same owner; None if no class has such a slot."""
+        kinds = set()
+        pair = False
+        for name, m in self.models.items():
+            if attr in m.slots:
+                kinds.add(m.slot_kind.get(attr))
+                pair = pair or (name, attr) in self.pair_slots
+            elif attr == m.template:
+                kinds.add("single")
+        if not kinds:
+            return None
+        if kinds == {"single"}:
+            return A(own)
+        if kinds == {"dict"}:
+            return V("D", own, A(own))
+        # lists of aggregators, lists of (threshold, aggregator) pairs, or dicts: indexing/iterating yields something of the owner
+        return V("L", own, A(own), note="nested")
+
 
 class Evaluator:
     def __init__(self, repo, shapes, depth=0):
@@ -256,6 +276,11 @@ class Ctx:
                 return base.fields.get(e.attr, S)
             if base.kind == "A" and e.attr in ("quantity", "transform"):
                 return S
+            if base.kind == "A" and base.own not in (FRESH, None):
+                own = borrowed(base.own[1], ((base.own[2] + ".") if base.own[2] else "") + e.attr)
+                nv = self.shapes.nested(e.attr, own)
+                if nv is not None:
+                    return nv
             return S if base.kind in ("A", "S", "P", "L", "D") else U
         if isinstance(e, ast.Subscript):
             base = self.ev(e.value)
@@ -270,6 +295,8 @@ class Ctx:
                 for it in base.items:
                     out = join(out, it)
                 return out or U
+            if base.kind == "A" and base.own not in (FRESH, None):
+                return base        # e.g. a (threshold, aggregator) pair taken for an aggregator: still the owner's
             return U if base.kind == "U" else S
         if isinstance(e, ast.Call):
             return self.call(e)
